@@ -398,6 +398,27 @@ func c02GenCase(r *rand.Rand, id int, allowDelete bool) *c02Case {
 		// CRCs, which do not cover the node id, gives both sides the same hashes (finding equal-hash-different-content)
 		kind = "outage-twin-points"
 	}
+	if id%8 == 3 {
+		// with the link up: a node created upstream that has no node points (only its edge), then ordinary writes on
+		// both sides - the new node must appear downstream and the later writes must still cross
+		c.Kind = "up-create-upstream-bare"
+		g.n++
+		bare := fmt.Sprintf("u%d", g.n)
+		parent := g.pick("U")
+		g.nodes = append(g.nodes, bare)
+		g.par[bare] = parent
+		t := g.tick()
+		ph2 := c02Phase{Name: "up", Ops: []c02Op{
+			{"U", sOp{Kind: "ep", Node: bare, Parent: parent, Points: []sPoint{{Type: "tombstone", Time: t}, {Type: "nodeType", Time: t, Text: "variable"}}}}}}
+		c.Phases = append(c.Phases, ph2)
+		ph3 := c02Phase{Name: "up"}
+		for i := 0; i < 2+r.Intn(3); i++ {
+			ph3.Ops = append(ph3.Ops, g.points(c02Side(r)))
+		}
+		c.Phases = append(c.Phases, ph3)
+		c.Nodes = g.nodes
+		return c
+	}
 	if id%8 == 5 {
 		// an entry deleted on one side (point-level tombstone) and written again, later, on the other
 		kind = "outage-point-delete"
